@@ -151,6 +151,15 @@ CHECKS = {
         "two slots as errors, convert arguments per the table, and every documented built-in must return what the Go function it "
         "exposes returns; the same parsed template re-executed with the callee rebound must call the new binding.",
    design_ref="DESIGN.md §5 C14", note=NOTE_TRUST),
+ "C20": dict(
+   technique="TLA+ JetWalk (the grammar's AST shape per construct: source text + node list; Walk as a depth-first machine; "
+             "VisitsEachOnce) enumerated by TLC; every template parsed by the real parser and walked by utils.Walk with a recording "
+             "visitor that descends with VisitorContext.Visit",
+   text="TLC builds a template for every node kind in every child slot of every parent kind with optional children present and "
+        "absent, and the node list each must produce. The real parser's tree is walked by the real visitor: it must not panic, "
+        "must terminate (a node handed out more than 20 times is reported as non-termination instead of overflowing the stack), "
+        "must not visit a node twice, and the bag of visited node types must be the specification's.",
+   design_ref="DESIGN.md §5 C20", note=NOTE_TRUST + " ListNode and the unexported catchNode are containers (at most once)."),
  "C15": dict(
    technique="TLA+ JetPath (Canon/ProbeCalls contract) model-checked by TLC; every TLC terminal state replayed "
              "against the real Set with recording Loader+Cache; recorded random lookups trace-validated by TLC (Trace_Path)",
